@@ -60,3 +60,25 @@ package reader
 //@   ensures forall i int :: 0 <= i && i < old(len(events)) ==> events[i] == old(events[i])
 //@   modifies events
 //@   panics never
+
+// ---- C04 / C11: the drop barrier ----------------------------------------------------------------------
+// barrierSeen[b]: number of shard signals received so far by barrier b's goroutine.
+//@ ghost var barrierSeen map[ref]int
+//@ ghost var barrierFired map[ref]int
+//@ chancount Barrier.BarrierSignalChan barrierSeen
+
+// the goroutine body of NewBarrier: u is called once per received signal, f exactly once and only
+// after Dest signals were received; closing the barrier (stop/pause) never fires f.
+//@ func NewBarrier$1
+//@   props C04 C11
+//@   requires deref(barrier) != nil
+//@   assumes barrierSeen[deref(barrier)] == 0 && barrierFired[deref(barrier)] == 0
+//@   funcparam u(vchannel, m)
+//@   funcparam u modifies * except barrierSeen barrierFired Barrier.* cells(*Barrier)
+//@   funcparam f(msgTs, b)
+//@   funcparam f requires [fires-only-after-every-shard-reported] barrierSeen[b] >= b.Dest && barrierFired[b] == 0
+//@   funcparam f ensures barrierFired == mapSet(old(barrierFired), b, old(barrierFired)[b] + 1)
+//@   funcparam f modifies * except barrierSeen Barrier.* cells(*Barrier)
+//@   ensures [fired-exactly-once] barrierFired[deref(barrier)] == 1
+//@   loop 1 invariant current == barrierSeen[deref(barrier)] && 0 <= current && barrierFired[deref(barrier)] == 0 && deref(barrier).Dest == old(deref(barrier).Dest)
+//@   loop 1 decreases deref(barrier).Dest - current
